@@ -3,7 +3,6 @@
 from __future__ import annotations
 
 import abc
-import contextlib
 import datetime
 import decimal
 import enum
@@ -293,9 +292,15 @@ class UnionMarshaller(AbstractMarshaller[UnionT], tp.Generic[UnionT]):
 
         # Any error a member routine raises is a rejection of the input by that member.
         for routine in self.ordered_routines:
-            with contextlib.suppress(Exception):
-                unmarshalled = routine(val)
-                return unmarshalled
+            try:
+                return routine(val)
+            # Running out of stack or memory says nothing about whether the member accepts
+            #   the value, and retrying every sibling at every level of a recursive type
+            #   is exponential: let it surface.
+            except (RecursionError, MemoryError):
+                raise
+            except Exception:
+                continue
 
         raise ValueError(f"{val!r} is not one of types {self.stack!r}")
 
